@@ -12,6 +12,7 @@ CONSTANTS
   Drivers = {"iour", "poll"}
   Impls = {"blocking", "pidfd"}
   Families = {"echo", "consumer", "producer", "exit", "status", "held"}
+  BlockingChildPipes = FALSE
 SPECIFICATION FairSpec
-INVARIANTS TypeOK InOrder Conservation WaitSafe CompleteAtEnd NoDeadlock LiveAtTerminal
+INVARIANTS TypeOK InOrder Conservation WaitSafe CompleteAtEnd NoDeadlockStrict LiveAtTerminal
 PROPERTIES ExitLeadsToWait MustCompleteCompletes
